@@ -47,19 +47,7 @@ func (w *l2World) endOfBlock(bc blockCtx, res *abci.ResponseFinalizeBlock, anySu
 	w.planClass = ""
 	if plan != nil {
 		// classify the plan against the validator set it meets (the finding key names the input class)
-		cls := ""
-		if _, known := w.m.Vals[w.planOp[plan.Height]]; known {
-			cls = "known-operator"
-		}
-		if v := w.m.valByKey(node.ValKey(w.planKey[plan.Height]).PubKey().Bytes()); v != nil && v.Operator != w.planOp[plan.Height] {
-			if cls != "" {
-				cls += "+"
-			}
-			cls += "used-key"
-		}
-		if cls == "" {
-			cls = "fresh"
-		}
+		cls := w.classifyPlan(plan)
 		w.planClass = cls
 		w.r.Probe("plan.fired." + cls)
 		w.applyPlanToModel(plan)
